@@ -169,4 +169,28 @@ mod proofs {
         kani::cover!(unsafe { G::reader_close[0] / vshim::NT >= 2 }, "a reader section spans all rounds");
         core::mem::forget(l);
     }
+
+    /// K = 4 rounds: one writer x 2 stores, one reader thread with two consecutive
+    /// read sections (the second one lands in the other generation slot).
+    #[kani::proof]
+    #[kani::stub(alloc::alloc::dealloc_nonnull, noop_dealloc)]
+    #[kani::unwind(8)]
+    pub fn c01_lr_w1x2_r1x2_k4() {
+        let l = reg::Lock::new(Canary(0));
+        vshim::set_mode_lr(4, 4, 0);
+        unsafe {
+            ST::require_seqcst = true;
+            G::is_writer[0] = true;
+        }
+        vshim::thread_start(0);
+        store(&l, 1, None);
+        store(&l, 2, None);
+        let a = reader(&l, 1);
+        let b = reader_again(&l);
+        final_checks(2, 3);
+        verdict();
+        kani::cover!(a != b, "the two sections saw different snapshots");
+        kani::cover!(a == 0 && b == 2, "first and last snapshot seen");
+        core::mem::forget(l);
+    }
 }
